@@ -151,6 +151,40 @@ def run(ctx):
             elif not np.array_equal(I.dense_of(ix), ai):
                 ctx.oracle_fail("from_array of a bool array does not hold its content", desc, cls="C15-common-not-most-frequent")
     ctx.exhaustive.append("from_array without options on every boolean array of shape (4,), (2,2), (3,2), (2,3)")
+    # near ties in large indexes: the most frequent value leads the stored common value by ONE cell among hundreds
+    for shape in ((101,), (301,), (150, 2), (1001,)):
+        n = int(np.prod(shape))
+        k = n // 2
+        flat = ([7] * (k + 1) + [3] * k + [5] * n)[:n] if n % 2 else ([7] * k + [3] * (k - 1) + [5])
+        flat = np.array(flat, dtype=np.int64)
+        assert len(flat) == n
+        ctx.rng.shuffle(flat)
+        a = flat.reshape(shape)
+        for via in ("shift_common", "filtered", "append"):
+            ix = iindex.from_array(a, common=3)            # a legal, well-formed index whose common value is NOT the most frequent
+            desc = {"near_tie": list(shape), "via": via}
+            ctx.case(desc, nontrivial=True)
+            ctx.hit("near_tie:" + via)
+            try:
+                if via == "shift_common":
+                    ix.shift_common()
+                    res, arr = ix, a
+                elif via == "filtered":
+                    mask = np.ones(shape[0], dtype=bool)
+                    mask[0] = False
+                    res, arr = ix.filtered(mask, int(mask.sum())), a[mask]
+                else:
+                    res = ix
+                    res.append(iindex.from_array(a[:1], common=3))
+                    arr = np.concatenate([a, a[:1]])
+            except Exception as e:
+                ctx.oracle_fail("%s on a %s index raised %s: %s" % (via, shape, type(e).__name__, str(e)[:80]), desc, cls="C15-raises")
+                continue
+            v, c = np.unique(arr, return_counts=True)
+            cc = int(np.count_nonzero(arr == res.common))
+            if cc != int(c.max()):
+                ctx.oracle_fail("after %s the common value %s occurs %d times but %s occurs %d times (index of %d cells)" % (
+                    via, res.common, cc, int(v[int(np.argmax(c))]), int(c.max()), arr.size), desc, cls="C15-common-not-most-frequent")
     # equality across histories
     for _ in range(ctx.n(120)):
         steps = hist.run_history(ctx.rng, ctx.rng.randrange(0, 6), ndim=ctx.rng.choice([1, 2]),
